@@ -15,10 +15,40 @@ BASE, FRESH, OWN = "base", "fresh", "own"
 class Flow:
     """Statement-ordered abstract interpretation: which names hold an overload obtained from a base class?"""
 
-    def __init__(self, f, base_iters):
+    def __init__(self, f, base_iters, repo=None, depth=0):
         self.f = f
         self.base_iters = base_iters  # names that iterate the bases
         self.events = []  # (call node, receiver name, kind)
+        self.repo = repo
+        self.depth = depth
+        self.returns = []
+
+    def helper_call(self, e, st):
+        """self._helper(args) / Class._helper(args) of the same class: run the helper with the argument kinds."""
+        if self.repo is None or self.depth >= 2 or self.f.cls is None or not isinstance(e.func, ast.Attribute) or not isinstance(e.func.value, ast.Name):
+            return None
+        if e.func.value.id not in (recv_name(self.f), self.f.cls.name, "cls"):
+            return None
+        h = self.repo.find_method(self.f.cls, e.func.attr)
+        if h is None or h is self.f or not e.func.attr.startswith("_") or e.func.attr.startswith("__"):
+            return None
+        static = any(dotted(d) == "staticmethod" for d in h.node.decorator_list)
+        params = [a.arg for a in h.node.args.args]
+        if not static:
+            params = params[1:]
+        sub = Flow(h, self.base_iters, self.repo, self.depth + 1)
+        st2 = {}
+        if not static and h.node.args.args:
+            pass
+        for p, a in zip(params, e.args):
+            st2[p] = self.kind(a, st)
+        sub.run(h.node.body, st2)
+        self.events.extend(sub.events)
+        ks = set(sub.returns)
+        if BASE in ks:
+            return BASE
+        ks.discard(None)
+        return ks.pop() if len(ks) == 1 else None
 
     def kind(self, e, st):
         if isinstance(e, ast.Name):
@@ -32,6 +62,9 @@ class Flow:
             cn = call_name(e) or ""
             if isinstance(e.func, ast.Attribute) and e.func.attr in ("copy", "variant"):
                 return FRESH
+            hk = self.helper_call(e, st)
+            if hk is not None or (isinstance(e.func, ast.Attribute) and self.repo is not None and self.f.cls is not None and self.repo.find_method(self.f.cls, e.func.attr) is not None and e.func.attr.startswith("_") and not e.func.attr.startswith("__")):
+                return hk
             if cn in ("Ovld", "ovld"):
                 return FRESH
             if cn == "getattr" and e.args:
@@ -117,6 +150,7 @@ class Flow:
                 self.run(s.body, st)
             elif isinstance(s, ast.Return) and s.value is not None:
                 self.calls(s.value, st)
+                self.returns.append(self.kind(s.value, st))
         return st
 
 
@@ -128,7 +162,7 @@ def r1_copy_before_mutate(ctx):
     n = 0
     for f in sites:
         ctx.touch(f)
-        flow = Flow(f, {"bases", "_bases"})
+        flow = Flow(f, {"bases", "_bases"}, repo)
         flow.run(f.node.body, {})
         ctx.require(flow.events, f"{f.key}: no register/add_mixins/rename call found (restructured)")
         for call, recv, kind in flow.events:
